@@ -44,3 +44,7 @@ Example C04_example :
   reopen (run_eras [ {| e_ops := [HOpen; HUpdate; HSync; HUpdate; HRecover 5]; e_crash := 19; e_pick := fun _ => 0 |};
                      {| e_ops := [HOpen]; e_crash := 1; e_pick := fun _ => 0 |} ]) = Some 1.
 Proof. vm_compute. reflexivity. Qed.
+
+(* every remaining property theorem of this file *)
+Print Assumptions C04_initial.
+Print Assumptions C04_reopen_good.
